@@ -252,6 +252,21 @@ pub fn exercise(bytes: &[u8], privs: &[StaticSecret], enc: bool) -> Exercise {
             linear_extract(&mut rd, &mut export)
         });
         note(&mut ex, "linear_extract", lx);
+        // the same with only every second name chosen, and with nothing chosen: blocks of files that are
+        // not extracted are skipped by their (untrusted) length
+        let lx2 = catch(|| {
+            let mut export: HashMap<&String, NullSink> = HashMap::new();
+            for n in names.iter().step_by(2) {
+                export.insert(n, NullSink(0));
+            }
+            linear_extract(&mut rd, &mut export)
+        });
+        note(&mut ex, "linear_extract (subset)", lx2);
+        let lx3 = catch(|| {
+            let mut export: HashMap<&String, NullSink> = HashMap::new();
+            linear_extract(&mut rd, &mut export)
+        });
+        note(&mut ex, "linear_extract (nothing chosen)", lx3);
         // the reader is still usable after whatever happened above
         let again = catch(|| rd.list_files().map(|it| it.count()));
         note(&mut ex, "list_files (again)", again);
